@@ -57,7 +57,25 @@ fn position_for_offset(input: &[u8], offset: usize) -> Point {
 
 pub fn perform_edit<S: Content>(tree: &mut Tree, input: &mut S, edit: &Edit<S>) -> InputEdit {
   let edit = input.accept_edit(edit);
+  #[cfg(ast_grep_verif)]
+  crate::verif_hook::emit(
+    "accept_edit",
+    &format!(
+      "\"start\":{},\"old_end\":{},\"new_end\":{},\"sp\":[{},{}],\"oep\":[{},{}],\"nep\":[{},{}]",
+      edit.start_byte(),
+      edit.old_end_byte(),
+      edit.new_end_byte(),
+      edit.start_position().row(),
+      edit.start_position().column(),
+      edit.old_end_position().row(),
+      edit.old_end_position().column(),
+      edit.new_end_position().row(),
+      edit.new_end_position().column()
+    ),
+  );
   tree.edit(&edit);
+  #[cfg(ast_grep_verif)]
+  crate::verif_hook::emit("tree_edit", "\"by\":\"perform_edit\"");
   edit
 }
 
